@@ -2,6 +2,7 @@
 
 import re
 import os
+import numbers
 from itertools import chain
 from copy import deepcopy
 import warnings
@@ -1093,6 +1094,22 @@ def read_qasm(qasm_input, mode="default", version="2.0", strmode=False):
     return qc
 
 
+def _qasm_number(value):
+    """
+    Format a gate parameter as an OpenQASM 2.0 number: integers as they are,
+    reals always with a decimal point (``1e-09`` is not a valid real).
+    """
+    if isinstance(value, numbers.Integral):
+        return str(int(value))
+    text = repr(float(value))
+    if "inf" in text or "nan" in text:
+        raise ValueError("QASM: cannot export the parameter {}".format(text))
+    mantissa, _, exponent = text.partition("e")
+    if "." not in mantissa:
+        mantissa += ".0"
+    return mantissa + ("e" + exponent if exponent else "")
+
+
 _GATE_NAME_TO_QASM_NAME = {
     "QASMU": "U",
     "RX": "rx",
@@ -1164,9 +1181,12 @@ class QasmOutput:
         else:
             q_regs = ",".join(q_regs)
 
+        if isinstance(q_args, (list, tuple, np.ndarray)):
+            q_args = ",".join([_qasm_number(arg) for arg in q_args])
+        elif q_args is not None and not isinstance(q_args, str):
+            q_args = _qasm_number(q_args)
+
         if q_args:
-            if isinstance(q_args, list):
-                q_args = ",".join([str(arg) for arg in q_args])
             return "{}({}) {};".format(q_name, q_args, q_regs)
         else:
             return "{} {};".format(q_name, q_regs)
